@@ -33,6 +33,14 @@ def main(tier):
     # (4) every quiescent point of delivery/retry histories: requested timeout versus earliest due time, spin detection
     prof = {"lifetimes": [604800, 604800, 3000, 500], "p_alrm": 0.06, "p_term_restart": 0.05, "max_msgs": 4}
     rh = histrun.run(PROP, b, core.scaled(800 if quick else 6000), prof, ["RetryOracle", "WakeupOracle"], salt="h")
+    # a channel put on hold (concurrency 0) with messages due on it: the daemon must block, not spin (seed c16-s8), and the
+    # other channel's due times still bound its sleep
+    prof0 = dict(prof, conc=[0, 0, 1, 5], max_idle_advances=6, p_term_restart=0.02)
+    # (only the wake-up/spin oracle: a pass stuck on the held channel keeps its job slot, and with few job slots the other
+    # channel legitimately waits - the sleep bound of the retry oracle presumes a free job)
+    rh0 = histrun.run(PROP, b, core.scaled(240 if quick else 2000), prof0, ["WakeupOracle"], salt="hold")
+    rh0.counters.inc("histories_with_a_channel_on_hold", rh0.evaluations)
+    rh.merge(rh0)
     # "due now (its retry time has come, or an ALRM made it due), slots free, and the daemon asks to sleep" is the retry oracle's
     # C15/not-retried-promptly; it is just as much sleeping past the earliest due event (seed c16-s6)
     for v in rh.violations:
@@ -43,7 +51,7 @@ def main(tier):
     rule = ("(1) all %d merges (non-decreasing 4-tuples over 0..%d) of one qmail-queue's {link todo, open/write/close trigger} with "
             "qmail-send's {close/reopen trigger, opendir, readdir...} while the daemon scans for another message, realised exactly "
             "through libc-call gates; (2) the same against a daemon idle in select; (3) a seeded sample of two-injector merges; "
-            "(4) every quiescent point of seeded delivery/retry histories. Oracle: with all injections complete and the clock not "
+            "(4) every quiescent point of seeded delivery/retry histories, incl. histories with a channel on hold (concurrency 0). Oracle: with all injections complete and the clock not "
             "moved, a daemon that asks to sleep (timeout > 0) must have left no todo entry; no 200 consecutive zero-timeout selects "
             "without other activity; requested sleep <= earliest due retry (exact, from pass-open events) + fuzz and <= 1501 s. "
             "Non-trivial = an interleaving in which injector steps were merged with daemon steps; distinct by granted sequence." % (
